@@ -1,4 +1,5 @@
 """Shared helpers for rule packs (anchor lookup, role inference, site keys)."""
+import re as _re
 from . import absint, cfg as cfgmod, zones
 from .absint import tstr
 from .core import Anchor
@@ -286,6 +287,34 @@ def private_helpers(crate, adt_suffix, exclude=()):
     # ... and the functions of the crate's private value-carrier types (`Node::left()`, `Halves::new`, `BitPos::mask()`)
     seen = {b.key for b in own}
     return own + [b for b in private_type_helpers(crate, exclude) if b.key not in seen]
+
+
+def generic_names(crate, adt_suffix):
+    """names of the generic parameters of a type of the crate, in declaration order, as its impls spell them
+    (`impl<const WORDS: usize> Bitset<WORDS>` -> ['WORDS']): rules that talk about `N` mean the parameter, not the letter"""
+    adt = need_adt(crate, adt_suffix)
+    for imp in crate.impls:
+        if imp.get("self_adt") != adt["key"]:
+            continue
+        ty = str(imp.get("self_ty") or "")
+        k = ty.find("<")
+        if k < 0 or not ty.endswith(">"):
+            continue
+        parts, depth, cur = [], 0, ""
+        for ch in ty[k + 1:-1]:
+            if ch == "<":
+                depth += 1
+            elif ch == ">":
+                depth -= 1
+            if ch == "," and depth == 0:
+                parts.append(cur.strip())
+                cur = ""
+            else:
+                cur += ch
+        parts.append(cur.strip())
+        if parts and all(_re.fullmatch(r"'?[A-Za-z_][A-Za-z0-9_]*", x_) for x_ in parts):
+            return parts
+    return []
 
 
 def private_type_helpers(crate, exclude=()):
